@@ -181,7 +181,7 @@ def run_str(item, ob, mode):
     alias, rep, vkind = item
     E = eng(); I = z3.Int('i'); f_set = find_fn(E, 'set_index')
     base = [97, 98, 99]
-    val = {'byte': sobj([120]), 'two': sobj([120, 121]), 'num': num(5), 'none': None}[vkind]
+    val = {'byte': sobj([120]), 'two': sobj([120, 121]), 'mb': sobj([195, 169]), 'num': num(5), 'none': None}[vkind]      # 'mb': one character, two bytes ('é')
     def run():
         if rep == 'Small': E.assume(in_i64(I))
         x = sobj(base); al = E.clone_value(x) if alias else None
@@ -191,7 +191,7 @@ def run_str(item, ob, mode):
         return r, absval(cell.v), absval(al) if al is not None else None, list(E.log)
     def replay(model):
         i = mval(model, I); L = fmt_big(i) if rep == 'Big' else fmt_int(i)
-        v = {'byte': "'x'", 'two': "'xy'", 'num': '5'}.get(vkind)
+        v = {'byte': "'x'", 'two': "'xy'", 'mb': "'\\xc3\\xa9' then utf8_encode then utf8_decode" if False else "'é'", 'num': '5'}.get(vkind)
         if v is None: return None
         n = 3; p = i if 0 <= i < n else (i + n if -n <= i < 0 else None)
         s = 'abc'
@@ -203,6 +203,8 @@ def run_str(item, ob, mode):
         if kind == 'panic': ob.panic(name + ' panic-free', pc, res, replay=lambda m: dict(replay(m), expect={'not_panic': 1}) if replay(m) else None, cls=f'{mode}/string set_index/panic', prefer=pref); continue
         if kind != 'ok': ob.missing(name, f'{kind}: {res}'); continue
         r, after, al, log = res
+        if mode == 'C14':
+            ob.check(name + ' returns a value or an error', pc, z3.BoolVal(True), replay=replay, cls='C14/string set_index/result'); ob.witness(r.variant); continue
         if mode == 'C01':
             ob.check(name + ' alias unchanged', pc, z3.BoolVal(al is None or al == ('String', tuple(base))), replay=replay, cls='C01/string set_index/alias-changed', prefer=pref)
             v0, p0 = z_norm(I, 3); valid = z3.And(in_isz(I), v0)
@@ -227,7 +229,7 @@ def items_for(tier, seed):
                 for rep in reps: items.append(('dict', (op, wd, alias, rep)))
     for alias in (False, True):
         for rep in ('Small', 'Big'):
-            for vk in ('byte', 'two', 'num', 'none'): items.append(('str', (alias, rep, vk)))
+            for vk in ('byte', 'two', 'mb', 'num', 'none'): items.append(('str', (alias, rep, vk)))
     return items
 
 def run_shape(item, ob, mode):
